@@ -11,7 +11,8 @@
  *   R time type more depth addr                       (record without payload)
  *   P time type more depth addr len hex(args.data[0..len))   (record with payload)
  *   END eof                                           (read_task_ustack returned -1)
- *   STATUS n <exit status of the child> <signal>
+ *   END runaway                                       (more records than n/16 + 4: the reader does not advance)
+ *   STATUS n <exit status of the child> <signal>      (the run stops after 3 children died by a signal / 8 s alarm)
  * A child that leaves through pr_err (exit(1)) prints no END line; its stderr goes to
  * DIR/../stderr.n only when it is non-empty (sanitizer reports, diagnostics).
  */
@@ -29,8 +30,9 @@
 
 extern FILE *logfp, *outfp;
 
-static int c12_read_stream(const char *dir, int tid)
+static int c12_read_stream(const char *dir, int tid, long max_records)
 {
+	long nrec = 0;
 	struct uftrace_opts opts = {
 		.dirname = (char *)dir,
 		.depth = OPT_DEPTH_DEFAULT,
@@ -54,6 +56,13 @@ static int c12_read_stream(const char *dir, int tid)
 	}
 	while (read_task_ustack(&handle, task) == 0) {
 		struct uftrace_record *r = &task->ustack;
+
+		/* a file of n bytes holds at most n/16 records: more means the reader does not advance */
+		if (++nrec > max_records) {
+			printf("END runaway\n");
+			fflush(stdout);
+			return 5;
+		}
 
 		if (r->more) {
 			printf("P %llu %u %u %u %llu %d ", (unsigned long long)r->time, r->type, r->more,
@@ -80,7 +89,7 @@ int main(int argc, char **argv)
 	char path[4096], line[64], errp[4096];
 	unsigned char *full;
 	long size;
-	int tid;
+	int tid, nsig = 0;
 	FILE *f;
 
 	if (argc < 4)
@@ -120,13 +129,16 @@ int main(int argc, char **argv)
 			fd = open(errp, O_WRONLY | O_CREAT | O_TRUNC, 0644);
 			dup2(fd, 2);
 			close(fd);
-			alarm(20);
-			_exit(c12_read_stream(argv[1], tid));
+			alarm(8);
+			_exit(c12_read_stream(argv[1], tid, n / 16 + 4));
 		}
 		waitpid(pid, &st, 0);
 		printf("STATUS %ld %d %d\n", n, WIFEXITED(st) ? WEXITSTATUS(st) : -1,
 		       WIFSIGNALED(st) ? WTERMSIG(st) : 0);
 		fflush(stdout);
+		/* a reader that hangs or dies is reported by the first few cuts; do not wait for hundreds */
+		if (WIFSIGNALED(st) && ++nsig >= 3)
+			break;
 	}
 	return 0;
 }
